@@ -54,9 +54,11 @@ void verif_check(int ok, const char *msg)
     if (mode_replay || (verbose && !ok)) fprintf(vout, "CHECK %s %s\n", ok ? "ok" : "FAILED", msg);
 }
 void verif_reject(void) { rejected = 1; siglongjmp(verif_jb, 2); }
+int verif_expect_no_abort;   /* set by a harness after its reference run: a deliberate abort of the code under test is then a failed check (C01) */
 void verif_native_exit(int outcome, const char *msg)
 {
     if (!verif_outcome) verif_outcome = outcome;
+    if (verif_expect_no_abort) { verif_expect_no_abort = 0; verif_check(0, "the code under test aborts or reports unimplemented where the reference completes"); }
     if (mode_replay || verbose) fprintf(vout, "EXIT outcome=%d (%s)\n", outcome, msg);
     if (outcome == 99) { fprintf(vout, "MODEL-LIMIT %s\n", msg); }
     siglongjmp(verif_jb, 1);
@@ -105,7 +107,7 @@ int main(int argc, char **argv)
             for (long i = 0; i < n; i++) {
                 rng_s = (seed + 1) * 0x9E3779B97F4A7C15ull + (uint64_t)h * 1000003ull + (uint64_t)i * 7919ull + 1; rng(); rng();
                 sample_mode = (int)i;
-                hash_acc = 1469598103934665603ull; rejected = 0; checks_failed_this = 0; verif_outcome = 0;
+                hash_acc = 1469598103934665603ull; rejected = 0; checks_failed_this = 0; verif_outcome = 0; verif_expect_no_abort = 0;
                 int j = sigsetjmp(verif_jb, 1);
                 if (j == 0) verif_harness_table[h].fn();
                 if (rejected) continue;
